@@ -1,1 +1,742 @@
-//! R7 (filled in with the C13 check).
+//! R7 - decision-diagram circuits: plain interpreter, hash-consed ROBDD package, bit-blasted word operations.
+//!
+//! Pure Rust, no dependency on /repo. Three independent pieces:
+//!
+//! * [`CNode`] / [`interpret`]: the evaluator's level-by-level semantics over plain booleans, written from the
+//!   description of the node table (state `[0, 1, 0, ..]`, `Cmux(bit, hi, lo)`, `Copy`, `None`; two buffers that are
+//!   swapped after every level, so a `None` slot keeps what the same buffer held two levels earlier; the last chunk
+//!   is `[Cmux, None..]` and produces the output).
+//! * [`Robdd`]: reduced ordered binary decision diagrams with a unique table (canonical: two functions are equal on
+//!   all assignments iff their node ids are equal) and a memoised `ite`.
+//! * [`spec_bit`] and [`word_op`]: the RISC-V style u32 word operations, as ROBDDs built gate by gate (ripple
+//!   adder/borrow chain, barrel shifter, comparator chain) and as Rust `u32` operators for concrete points.
+
+use std::collections::HashMap;
+
+// -------------------------------------------------------------------------------------------------------------
+// circuit tables and the plain interpreter
+// -------------------------------------------------------------------------------------------------------------
+
+/// One entry of a compiled circuit table.
+#[derive(Clone, Copy, Debug, PartialEq, Eq)]
+pub enum CNode {
+    /// `Cmux(selector input bit, hi slot, lo slot)`: next[j] = if input[bit] { prev[hi] } else { prev[lo] }
+    Cmux(usize, usize, usize),
+    /// next[j] = prev[j]
+    Copy,
+    /// next[j] is not written (keeps what that buffer held two levels earlier)
+    None,
+}
+
+/// A structural defect of a table (first one found).
+#[derive(Clone, Debug, PartialEq, Eq)]
+pub struct Structural {
+    pub kind: &'static str,
+    pub level: usize,
+    pub slot: usize,
+    pub detail: String,
+}
+
+/// Summary of a structurally sound table.
+#[derive(Clone, Debug, Default)]
+pub struct Shape {
+    pub levels: usize,
+    pub width: usize,
+    pub cmux: usize,
+    pub copy: usize,
+    pub none: usize,
+    /// largest number of slots written (Cmux/Copy) by one level
+    pub max_live: usize,
+    /// the input bits that occur as selectors (ascending)
+    pub selectors: Vec<usize>,
+}
+
+/// Structural invariants of one output-bit table.
+///
+/// * width 0: the evaluator writes zero and never looks at the nodes -> the table must be empty;
+/// * width 1 is impossible (slot 1 holds the constant one);
+/// * node count is a positive multiple of the width;
+/// * every hi/lo index < width, every selector < `input_size`;
+/// * definedness: slots 0 and 1 are defined initially (constants 0 and 1); a level defines exactly the slots it
+///   writes with Cmux (both operands must be defined) or Copy (source must be defined); a `None` slot is undefined
+///   after the level (it holds a value that is two levels old); no Cmux/Copy may read an undefined slot;
+/// * the last chunk is `[Cmux, None, None, ..]`.
+pub fn check_structure(nodes: &[CNode], width: usize, input_size: usize) -> Result<Shape, Structural> {
+    let bad = |kind: &'static str, level: usize, slot: usize, detail: String| Structural {
+        kind,
+        level,
+        slot,
+        detail,
+    };
+    if width == 0 {
+        if !nodes.is_empty() {
+            return Err(bad("width_zero_with_nodes", 0, 0, format!("{} nodes behind a zero state width", nodes.len())));
+        }
+        return Ok(Shape::default());
+    }
+    if width == 1 {
+        return Err(bad("width_one", 0, 0, "state width 1 cannot hold the constant one in slot 1".into()));
+    }
+    if nodes.is_empty() || nodes.len() % width != 0 {
+        return Err(bad(
+            "node_count_not_multiple_of_width",
+            0,
+            0,
+            format!("{} nodes, width {}", nodes.len(), width),
+        ));
+    }
+    let levels = nodes.len() / width;
+    let mut shape = Shape {
+        levels,
+        width,
+        ..Default::default()
+    };
+    let mut seen_sel = vec![false; input_size];
+    let mut def_prev = vec![false; width];
+    def_prev[0] = true;
+    def_prev[1] = true;
+    for (l, chunk) in nodes.chunks(width).enumerate() {
+        let last = l + 1 == levels;
+        let mut def_next = vec![false; width];
+        let mut live = 0;
+        for (j, nd) in chunk.iter().enumerate() {
+            match *nd {
+                CNode::Cmux(sel, hi, lo) => {
+                    shape.cmux += 1;
+                    live += 1;
+                    if sel >= input_size {
+                        return Err(bad("selector_out_of_range", l, j, format!("selector {sel} >= input size {input_size}")));
+                    }
+                    seen_sel[sel] = true;
+                    if hi >= width || lo >= width {
+                        return Err(bad("slot_index_out_of_range", l, j, format!("hi {hi} / lo {lo} >= width {width}")));
+                    }
+                    if !def_prev[hi] || !def_prev[lo] {
+                        let which = if !def_prev[hi] { hi } else { lo };
+                        return Err(bad(
+                            "reads_undefined_slot",
+                            l,
+                            j,
+                            format!("Cmux({sel},{hi},{lo}) reads slot {which} which the previous level left undefined"),
+                        ));
+                    }
+                    if last && j != 0 {
+                        return Err(bad("last_chunk_shape", l, j, "last chunk must be [Cmux, None, ..]".into()));
+                    }
+                    def_next[j] = true;
+                }
+                CNode::Copy => {
+                    shape.copy += 1;
+                    live += 1;
+                    if last {
+                        return Err(bad("last_chunk_shape", l, j, "Copy in the last chunk".into()));
+                    }
+                    if !def_prev[j] {
+                        return Err(bad("reads_undefined_slot", l, j, format!("Copy of slot {j} which the previous level left undefined")));
+                    }
+                    def_next[j] = true;
+                }
+                CNode::None => {
+                    shape.none += 1;
+                    if last && j == 0 {
+                        return Err(bad("last_chunk_shape", l, j, "last chunk must start with a Cmux".into()));
+                    }
+                }
+            }
+        }
+        shape.max_live = shape.max_live.max(live);
+        def_prev = def_next;
+    }
+    shape.selectors = (0..input_size).filter(|&i| seen_sel[i]).collect();
+    Ok(shape)
+}
+
+/// The evaluator's semantics over plain booleans. `input(i)` is input bit i. Total on every table for which the
+/// real evaluator does not index out of bounds (callers run [`check_structure`] first); width 0 -> false.
+pub fn interpret(nodes: &[CNode], width: usize, input: &dyn Fn(usize) -> bool) -> bool {
+    if width == 0 {
+        return false;
+    }
+    let mut a = vec![false; width];
+    let mut b = vec![false; width];
+    a[1] = true;
+    let levels = nodes.len() / width;
+    let (mut prev, mut next) = (&mut a, &mut b);
+    for (l, chunk) in nodes.chunks(width).enumerate() {
+        if l + 1 == levels {
+            return match chunk[0] {
+                CNode::Cmux(s, hi, lo) => {
+                    if input(s) {
+                        prev[hi]
+                    } else {
+                        prev[lo]
+                    }
+                }
+                _ => panic!("invalid last node"),
+            };
+        }
+        for (j, nd) in chunk.iter().enumerate() {
+            match *nd {
+                CNode::Cmux(s, hi, lo) => next[j] = if input(s) { prev[hi] } else { prev[lo] },
+                CNode::Copy => next[j] = prev[j],
+                CNode::None => {}
+            }
+        }
+        std::mem::swap(&mut prev, &mut next);
+    }
+    unreachable!()
+}
+
+/// Fast variant of [`interpret`] for 64 input bits packed in a word (bit i of `x` = input i).
+#[inline]
+pub fn interpret_u64(nodes: &[CNode], width: usize, x: u64, buf: &mut Vec<bool>) -> bool {
+    if width == 0 {
+        return false;
+    }
+    buf.clear();
+    buf.resize(2 * width, false);
+    buf[1] = true;
+    let levels = nodes.len() / width;
+    let (mut p, mut n) = (0usize, width);
+    for (l, chunk) in nodes.chunks(width).enumerate() {
+        if l + 1 == levels {
+            return match chunk[0] {
+                CNode::Cmux(s, hi, lo) => {
+                    if (x >> s) & 1 == 1 {
+                        buf[p + hi]
+                    } else {
+                        buf[p + lo]
+                    }
+                }
+                _ => panic!("invalid last node"),
+            };
+        }
+        for (j, nd) in chunk.iter().enumerate() {
+            match *nd {
+                CNode::Cmux(s, hi, lo) => buf[n + j] = if (x >> s) & 1 == 1 { buf[p + hi] } else { buf[p + lo] },
+                CNode::Copy => buf[n + j] = buf[p + j],
+                CNode::None => {}
+            }
+        }
+        std::mem::swap(&mut p, &mut n);
+    }
+    unreachable!()
+}
+
+// -------------------------------------------------------------------------------------------------------------
+// ROBDD
+// -------------------------------------------------------------------------------------------------------------
+
+/// Node id. 0 = constant false, 1 = constant true.
+pub type Bdd = u32;
+pub const FALSE: Bdd = 0;
+pub const TRUE: Bdd = 1;
+
+#[derive(Clone, Copy)]
+struct N {
+    level: u32,
+    lo: Bdd,
+    hi: Bdd,
+}
+
+const TERMINAL_LEVEL: u32 = u32::MAX;
+
+/// Reduced ordered BDD manager without complement edges: every Boolean function over the variables has exactly one
+/// node id (reduction rule `lo == hi -> lo`, unique table on `(level, lo, hi)`), so equality of functions on all
+/// assignments is equality of ids.
+pub struct Robdd {
+    nodes: Vec<N>,
+    unique: HashMap<(u32, Bdd, Bdd), Bdd>,
+    cache: HashMap<(Bdd, Bdd, Bdd), Bdd>,
+    /// level_of[variable]
+    level_of: Vec<u32>,
+    /// var_at[level]
+    var_at: Vec<usize>,
+    /// number of (non-trivial) recursive `ite` steps performed
+    pub ite_steps: u64,
+}
+
+impl Robdd {
+    /// `order[k]` = the variable tested at depth k (root first). Must be a permutation of `0..order.len()`.
+    pub fn new(order: &[usize]) -> Self {
+        let nv = order.len();
+        let mut level_of = vec![u32::MAX; nv];
+        for (l, &v) in order.iter().enumerate() {
+            assert!(v < nv && level_of[v] == u32::MAX, "order is not a permutation");
+            level_of[v] = l as u32;
+        }
+        let t = N {
+            level: TERMINAL_LEVEL,
+            lo: 0,
+            hi: 0,
+        };
+        Robdd {
+            nodes: vec![t, N { lo: 1, hi: 1, ..t }],
+            unique: HashMap::new(),
+            cache: HashMap::new(),
+            level_of,
+            var_at: order.to_vec(),
+            ite_steps: 0,
+        }
+    }
+
+    /// number of internal nodes ever created
+    pub fn nodes_created(&self) -> u64 {
+        (self.nodes.len() - 2) as u64
+    }
+
+    pub fn num_vars(&self) -> usize {
+        self.var_at.len()
+    }
+
+    fn mk(&mut self, level: u32, lo: Bdd, hi: Bdd) -> Bdd {
+        if lo == hi {
+            return lo;
+        }
+        if let Some(&id) = self.unique.get(&(level, lo, hi)) {
+            return id;
+        }
+        let id = self.nodes.len() as Bdd;
+        assert!(id < u32::MAX - 1, "ROBDD node table overflow");
+        self.nodes.push(N { level, lo, hi });
+        self.unique.insert((level, lo, hi), id);
+        id
+    }
+
+    /// the function "variable v"
+    pub fn var(&mut self, v: usize) -> Bdd {
+        let l = self.level_of[v];
+        self.mk(l, FALSE, TRUE)
+    }
+
+    #[inline]
+    fn level(&self, f: Bdd) -> u32 {
+        self.nodes[f as usize].level
+    }
+
+    #[inline]
+    fn cof(&self, f: Bdd, level: u32) -> (Bdd, Bdd) {
+        let n = self.nodes[f as usize];
+        if n.level == level { (n.lo, n.hi) } else { (f, f) }
+    }
+
+    /// if f then g else h
+    pub fn ite(&mut self, f: Bdd, g: Bdd, h: Bdd) -> Bdd {
+        // terminal cases
+        if f == TRUE {
+            return g;
+        }
+        if f == FALSE {
+            return h;
+        }
+        if g == h {
+            return g;
+        }
+        if g == TRUE && h == FALSE {
+            return f;
+        }
+        if let Some(&r) = self.cache.get(&(f, g, h)) {
+            return r;
+        }
+        self.ite_steps += 1;
+        let top = self.level(f).min(self.level(g)).min(self.level(h));
+        let (f0, f1) = self.cof(f, top);
+        let (g0, g1) = self.cof(g, top);
+        let (h0, h1) = self.cof(h, top);
+        let lo = self.ite(f0, g0, h0);
+        let hi = self.ite(f1, g1, h1);
+        let r = self.mk(top, lo, hi);
+        self.cache.insert((f, g, h), r);
+        r
+    }
+
+    pub fn not(&mut self, f: Bdd) -> Bdd {
+        self.ite(f, FALSE, TRUE)
+    }
+    pub fn and(&mut self, f: Bdd, g: Bdd) -> Bdd {
+        self.ite(f, g, FALSE)
+    }
+    pub fn or(&mut self, f: Bdd, g: Bdd) -> Bdd {
+        self.ite(f, TRUE, g)
+    }
+    pub fn xor(&mut self, f: Bdd, g: Bdd) -> Bdd {
+        let ng = self.not(g);
+        self.ite(f, ng, g)
+    }
+
+    /// value of f under the assignment `input(variable)`
+    pub fn eval(&self, mut f: Bdd, input: &dyn Fn(usize) -> bool) -> bool {
+        loop {
+            if f <= 1 {
+                return f == TRUE;
+            }
+            let n = self.nodes[f as usize];
+            f = if input(self.var_at[n.level as usize]) { n.hi } else { n.lo };
+        }
+    }
+
+    /// the variables f depends on (ascending variable index)
+    pub fn support(&self, f: Bdd) -> Vec<usize> {
+        let mut seen = std::collections::HashSet::new();
+        let mut vars = vec![false; self.var_at.len()];
+        let mut stack = vec![f];
+        while let Some(x) = stack.pop() {
+            if x <= 1 || !seen.insert(x) {
+                continue;
+            }
+            let n = self.nodes[x as usize];
+            vars[self.var_at[n.level as usize]] = true;
+            stack.push(n.lo);
+            stack.push(n.hi);
+        }
+        (0..vars.len()).filter(|&v| vars[v]).collect()
+    }
+
+    /// number of distinct internal nodes reachable from f
+    pub fn size(&self, f: Bdd) -> usize {
+        let mut seen = std::collections::HashSet::new();
+        let mut stack = vec![f];
+        while let Some(x) = stack.pop() {
+            if x <= 1 || !seen.insert(x) {
+                continue;
+            }
+            let n = self.nodes[x as usize];
+            stack.push(n.lo);
+            stack.push(n.hi);
+        }
+        seen.len()
+    }
+
+    /// one satisfying assignment of f (variables not on the path are false); None iff f is the constant false.
+    pub fn any_sat(&self, mut f: Bdd) -> Option<Vec<bool>> {
+        if f == FALSE {
+            return None;
+        }
+        let mut asg = vec![false; self.var_at.len()];
+        while f > 1 {
+            let n = self.nodes[f as usize];
+            let v = self.var_at[n.level as usize];
+            // in a reduced diagram every internal node has a path to TRUE; prefer lo
+            if n.lo != FALSE {
+                f = n.lo;
+            } else {
+                asg[v] = true;
+                f = n.hi;
+            }
+        }
+        Some(asg)
+    }
+
+    /// number of satisfying assignments over all variables of the manager, as f64-free exact u128 (<= 2^nv, nv <= 127)
+    pub fn sat_count(&self, f: Bdd) -> u128 {
+        let nv = self.var_at.len() as u32;
+        assert!(nv <= 120);
+        let mut memo: HashMap<Bdd, u128> = HashMap::new();
+        // count(f) = number of assignments of the variables at levels >= level(f) satisfying f
+        fn go(m: &Robdd, f: Bdd, nv: u32, memo: &mut HashMap<Bdd, u128>) -> u128 {
+            if f == FALSE {
+                return 0;
+            }
+            if f == TRUE {
+                return 1;
+            }
+            if let Some(&c) = memo.get(&f) {
+                return c;
+            }
+            let n = m.nodes[f as usize];
+            let lv = |x: Bdd| if x <= 1 { nv } else { m.nodes[x as usize].level };
+            let c = (go(m, n.lo, nv, memo) << (lv(n.lo) - n.level - 1)) + (go(m, n.hi, nv, memo) << (lv(n.hi) - n.level - 1));
+            memo.insert(f, c);
+            c
+        }
+        let top = if f <= 1 { nv } else { self.nodes[f as usize].level };
+        go(self, f, nv, &mut memo) << top
+    }
+}
+
+/// Symbolic run of a table under the evaluator's semantics: every slot holds a ROBDD; returns the output function.
+/// `var_of_input[i]` is the manager variable for input bit i. Caller has run [`check_structure`].
+pub fn symbolic(m: &mut Robdd, nodes: &[CNode], width: usize, var_of_input: &dyn Fn(usize) -> usize) -> Bdd {
+    if width == 0 {
+        return FALSE;
+    }
+    let mut a = vec![FALSE; width];
+    let mut b = vec![FALSE; width];
+    a[1] = TRUE;
+    let levels = nodes.len() / width;
+    let (mut prev, mut next) = (&mut a, &mut b);
+    for (l, chunk) in nodes.chunks(width).enumerate() {
+        if l + 1 == levels {
+            return match chunk[0] {
+                CNode::Cmux(s, hi, lo) => {
+                    let x = m.var(var_of_input(s));
+                    m.ite(x, prev[hi], prev[lo])
+                }
+                _ => panic!("invalid last node"),
+            };
+        }
+        for (j, nd) in chunk.iter().enumerate() {
+            match *nd {
+                CNode::Cmux(s, hi, lo) => {
+                    let x = m.var(var_of_input(s));
+                    next[j] = m.ite(x, prev[hi], prev[lo]);
+                }
+                CNode::Copy => next[j] = prev[j],
+                CNode::None => {}
+            }
+        }
+        std::mem::swap(&mut prev, &mut next);
+    }
+    unreachable!()
+}
+
+// -------------------------------------------------------------------------------------------------------------
+// word operations
+// -------------------------------------------------------------------------------------------------------------
+
+#[derive(Clone, Copy, Debug, PartialEq, Eq, Hash)]
+pub enum WordOp {
+    Add,
+    Sub,
+    Sll,
+    Srl,
+    Sra,
+    Slt,
+    Sltu,
+    And,
+    Or,
+    Xor,
+    Identity,
+}
+
+pub const ALL_WORD_OPS: [WordOp; 11] = [
+    WordOp::Add,
+    WordOp::Sub,
+    WordOp::Sll,
+    WordOp::Srl,
+    WordOp::Sra,
+    WordOp::Slt,
+    WordOp::Sltu,
+    WordOp::And,
+    WordOp::Or,
+    WordOp::Xor,
+    WordOp::Identity,
+];
+
+impl WordOp {
+    pub fn name(self) -> &'static str {
+        match self {
+            WordOp::Add => "add",
+            WordOp::Sub => "sub",
+            WordOp::Sll => "sll",
+            WordOp::Srl => "srl",
+            WordOp::Sra => "sra",
+            WordOp::Slt => "slt",
+            WordOp::Sltu => "sltu",
+            WordOp::And => "and",
+            WordOp::Or => "or",
+            WordOp::Xor => "xor",
+            WordOp::Identity => "identity",
+        }
+    }
+    pub fn from_name(s: &str) -> Option<WordOp> {
+        ALL_WORD_OPS.iter().copied().find(|o| o.name() == s)
+    }
+    /// number of meaningful output bits (the comparisons produce one bit)
+    pub fn output_bits(self) -> usize {
+        match self {
+            WordOp::Slt | WordOp::Sltu => 1,
+            _ => 32,
+        }
+    }
+    /// number of input bits (identity reads one word)
+    pub fn input_bits(self) -> usize {
+        match self {
+            WordOp::Identity => 32,
+            _ => 64,
+        }
+    }
+    pub fn is_shift(self) -> bool {
+        matches!(self, WordOp::Sll | WordOp::Srl | WordOp::Sra)
+    }
+    /// A good variable order: shift-amount bits first for the shifts (then a, then the ignored bits of b);
+    /// a_i, b_i interleaved LSB-first otherwise. Variable v in 0..32 = a_v, in 32..64 = b_{v-32}.
+    pub fn order(self) -> Vec<usize> {
+        let mut o = Vec::with_capacity(64);
+        if self.is_shift() {
+            o.extend(32..37);
+            o.extend(0..32);
+            o.extend(37..64);
+        } else {
+            for i in 0..32 {
+                o.push(i);
+                o.push(32 + i);
+            }
+        }
+        o
+    }
+}
+
+/// RISC-V word semantics on concrete values (R10): shift amount = low 5 bits of b; slt signed; sra arithmetic.
+pub fn word_op(op: WordOp, a: u32, b: u32) -> u32 {
+    match op {
+        WordOp::Add => a.wrapping_add(b),
+        WordOp::Sub => a.wrapping_sub(b),
+        WordOp::Sll => a << (b & 31),
+        WordOp::Srl => a >> (b & 31),
+        WordOp::Sra => ((a as i32) >> (b & 31)) as u32,
+        WordOp::Slt => ((a as i32) < (b as i32)) as u32,
+        WordOp::Sltu => (a < b) as u32,
+        WordOp::And => a & b,
+        WordOp::Or => a | b,
+        WordOp::Xor => a ^ b,
+        WordOp::Identity => a,
+    }
+}
+
+/// All output bits of `op` as ROBDDs over the manager's variables (a_i = variable i, b_i = variable 32+i), built
+/// gate by gate: ripple-carry adder, ripple-borrow subtractor, five-stage barrel shifters, LSB-first comparator chain.
+pub fn spec_bits(m: &mut Robdd, op: WordOp) -> Vec<Bdd> {
+    let a: Vec<Bdd> = (0..32).map(|i| m.var(i)).collect();
+    let b: Vec<Bdd> = (0..32).map(|i| m.var(32 + i)).collect();
+    match op {
+        WordOp::And => (0..32).map(|i| m.and(a[i], b[i])).collect(),
+        WordOp::Or => (0..32).map(|i| m.or(a[i], b[i])).collect(),
+        WordOp::Xor => (0..32).map(|i| m.xor(a[i], b[i])).collect(),
+        WordOp::Identity => a,
+        WordOp::Add => {
+            let mut c = FALSE;
+            let mut out = vec![];
+            for i in 0..32 {
+                let x = m.xor(a[i], b[i]);
+                out.push(m.xor(x, c));
+                // carry = majority(a, b, c) = a&b | c&(a^b)
+                let ab = m.and(a[i], b[i]);
+                let cx = m.and(c, x);
+                c = m.or(ab, cx);
+            }
+            out
+        }
+        WordOp::Sub => {
+            let mut br = FALSE;
+            let mut out = vec![];
+            for i in 0..32 {
+                let x = m.xor(a[i], b[i]);
+                out.push(m.xor(x, br));
+                // borrow = !a&b | !(a^b)&borrow
+                let na = m.not(a[i]);
+                let nab = m.and(na, b[i]);
+                let nx = m.not(x);
+                let nxb = m.and(nx, br);
+                br = m.or(nab, nxb);
+            }
+            out
+        }
+        WordOp::Sll | WordOp::Srl | WordOp::Sra => {
+            let fill = if op == WordOp::Sra { a[31] } else { FALSE };
+            let mut x = a;
+            for k in 0..5 {
+                let d = 1usize << k;
+                let mut y = vec![FALSE; 32];
+                for i in 0..32 {
+                    let shifted = if op == WordOp::Sll {
+                        if i >= d { x[i - d] } else { FALSE }
+                    } else if i + d < 32 {
+                        x[i + d]
+                    } else {
+                        fill
+                    };
+                    y[i] = m.ite(b[k], shifted, x[i]);
+                }
+                x = y;
+            }
+            x
+        }
+        WordOp::Slt | WordOp::Sltu => {
+            // lt over bits 0..n: lt_{i+1} = if a_i != b_i then b_i else lt_i  (the highest differing bit decides)
+            let mut lt = FALSE;
+            for i in 0..31 {
+                let x = m.xor(a[i], b[i]);
+                lt = m.ite(x, b[i], lt);
+            }
+            let x = m.xor(a[31], b[31]);
+            // unsigned: a < b iff b has the 1 at the top differing bit; signed: the operand with sign bit 1 is smaller
+            let top = if op == WordOp::Slt { a[31] } else { b[31] };
+            vec![m.ite(x, top, lt)]
+        }
+    }
+}
+
+/// Bit `bit` of `op` (convenience over [`spec_bits`]); bits beyond `output_bits` are the constant false.
+pub fn spec_bit(m: &mut Robdd, op: WordOp, bit: usize) -> Bdd {
+    let v = spec_bits(m, op);
+    v.get(bit).copied().unwrap_or(FALSE)
+}
+
+#[cfg(test)]
+mod tests {
+    use super::*;
+
+    fn rng(s: &mut u64) -> u64 {
+        *s = s.wrapping_add(0x9E3779B97F4A7C15);
+        let mut z = *s;
+        z = (z ^ (z >> 30)).wrapping_mul(0xBF58476D1CE4E5B9);
+        z = (z ^ (z >> 27)).wrapping_mul(0x94D049BB133111EB);
+        z ^ (z >> 31)
+    }
+
+    #[test]
+    fn spec_matches_u32_on_points() {
+        let mut s = 1u64;
+        for &op in ALL_WORD_OPS.iter() {
+            let mut m = Robdd::new(&op.order());
+            let bits = spec_bits(&mut m, op);
+            for t in 0..2000 {
+                let (a, b) = match t {
+                    0 => (0, 0),
+                    1 => (u32::MAX, u32::MAX),
+                    2 => (0x8000_0000, 1),
+                    3 => (1, 0x8000_0000),
+                    _ => (rng(&mut s) as u32, rng(&mut s) as u32),
+                };
+                let want = word_op(op, a, b);
+                let x = (a as u64) | ((b as u64) << 32);
+                for (i, &f) in bits.iter().enumerate() {
+                    assert_eq!(m.eval(f, &|v| (x >> v) & 1 == 1), (want >> i) & 1 == 1, "{:?} bit {i} a={a:#x} b={b:#x}", op);
+                }
+            }
+        }
+    }
+
+    #[test]
+    fn canonical_and_counts() {
+        let mut m = Robdd::new(&[0, 1, 2]);
+        let (x, y, z) = (m.var(0), m.var(1), m.var(2));
+        let a = m.and(x, y);
+        let b = m.and(y, x);
+        assert_eq!(a, b);
+        let o1 = m.or(a, z);
+        let nz = m.not(z);
+        let na = m.not(a);
+        let t = m.and(na, nz);
+        let o2 = m.not(t);
+        assert_eq!(o1, o2);
+        assert_eq!(m.sat_count(o1), 5);
+        assert_eq!(m.sat_count(TRUE), 8);
+        assert_eq!(m.support(a), vec![0, 1]);
+        let w = m.any_sat(a).unwrap();
+        assert!(w[0] && w[1]);
+    }
+
+    #[test]
+    fn interpreter_basic() {
+        // out = x0 ? 1 : 0 with width 2: single level [Cmux(0,1,0), None]
+        let t = [CNode::Cmux(0, 1, 0), CNode::None];
+        assert!(check_structure(&t, 2, 64).is_ok());
+        assert!(interpret(&t, 2, &|i| i == 0));
+        assert!(!interpret(&t, 2, &|_| false));
+        // reading an undefined slot
+        let t = [CNode::None, CNode::Copy, CNode::Cmux(0, 1, 0), CNode::Cmux(1, 2, 0), CNode::None, CNode::None];
+        assert_eq!(check_structure(&t, 3, 64).unwrap_err().kind, "reads_undefined_slot");
+    }
+}
